@@ -384,6 +384,23 @@ func (t *taskManager) waitOne() (*task, bool) {
 		}
 		ta.output = nOutput
 	}
+	if sr, ok := ta.output.(streamReader); ok && ta.err == nil {
+		// a node that fails while it streams reports the failure as an error item: give it the node's
+		// path, as a failure at call time gets it from the run loop. An item that already went through
+		// this for another node of the same run (a node forwarding the items of its input) keeps the
+		// path of the node where it arose.
+		nodeKey := ta.nodeKey
+		ta.output = sr.withErrWrapper(func(err error) error {
+			if ie, ok := err.(*internalError); ok && ie.streamOrigin == t {
+				return err
+			}
+			err = wrapGraphNodeError(nodeKey, err)
+			if ie, ok := err.(*internalError); ok {
+				ie.streamOrigin = t
+			}
+			return err
+		})
+	}
 	return ta, true
 }
 
